@@ -30,7 +30,7 @@ def build(H, tier, seed):
 
 
 def standins(tier, seed):
-    return K.symcoef_jobs('gp', ['gp'], tier, seed)
+    return K.symcoef_jobs('gp', ['gp'], tier, seed, extra_configs=K.CUSTOM)
 
 
 replay = K.replay_operator
